@@ -1,6 +1,11 @@
 import Sgz.Generated.Source
 import Sgz.Model.Loader
 import Sgz.Model.Reader
+import Sgz.Model.Crop
+import Sgz.Model.Reblock
+import Sgz.Model.Writer
+import Sgz.Model.Window
+import Sgz.Model.Derived
 /-!
 # Tie/Source — the model's arithmetic is the arithmetic of the source as it is now
 
@@ -213,5 +218,82 @@ theorem get_trace_arith (g : Geo) (t a b : Nat) :
 theorem padded_entry (len : Nat) (h : 0 < len) : Gen.padded_entry_bytes len = pad len 512 := by
   unfold Gen.padded_entry_bytes pad
   split <;> omega
+
+/-! ### cropping.py -/
+
+/-- `correct_bounds` -/
+theorem crop_correct (lo hi b n : Nat) :
+    Crop.correct lo hi b n = (Gen.crop_lo_clipped (Gen.crop_lo_aligned b lo), Gen.crop_hi_clipped n (Gen.crop_hi_aligned b hi)) := by
+  unfold Crop.correct Gen.crop_lo_clipped Gen.crop_lo_aligned Gen.crop_hi_clipped Gen.crop_hi_aligned
+  simp only [bne_iff_ne, ne_eq]
+
+/-- the refusal conditions of `check_and_correct_bounds`, per axis -/
+theorem crop_refusals (lo hi : Int) (n : Nat) :
+    ((Gen.crop_bad_il lo hi n ∨ Gen.crop_empty lo hi) ↔ (decide (lo < 0) || decide (hi > (n : Int)) || decide (lo ≥ hi)) = true)
+    ∧ ((Gen.crop_bad_xl n lo hi ∨ Gen.crop_empty lo hi) ↔ (decide (lo < 0) || decide (hi > (n : Int)) || decide (lo ≥ hi)) = true)
+    ∧ ((Gen.crop_bad_z n lo hi ∨ Gen.crop_empty lo hi) ↔ (decide (lo < 0) || decide (hi > (n : Int)) || decide (lo ≥ hi)) = true) := by
+  unfold Gen.crop_bad_il Gen.crop_bad_xl Gen.crop_bad_z Gen.crop_empty
+  simp only [Bool.or_eq_true, decide_eq_true_eq]
+  refine ⟨?_, ?_, ?_⟩ <;> constructor <;> intro h <;> omega
+
+/-- the copied units: counts (default layout) and block ids (other layouts) -/
+theorem crop_units (g : Geo) (b : Crop.Box) :
+    Crop.units g b =
+      if g.b0 == 4 && g.b1 == 4 then
+        (List.range (Gen.crop_il_units b.i0 b.i1)).flatMap fun i => (List.range (Gen.crop_xl_units b.x0 b.x1)).flatMap fun x =>
+          (List.range (Gen.crop_z_units g.b2 b.z0 b.z1)).map fun z =>
+            ((b.i0 / 4 + i) * (g.P1 / 4) * (g.P2 / 4) + (b.x0 / 4 + x) * (g.P2 / 4) + b.z0 / 4) + z
+      else
+        (List.range (pad b.i1 g.b0 / g.b0 - b.i0 / g.b0)).flatMap fun i =>
+          (List.range (pad b.x1 g.b1 / g.b1 - b.x0 / g.b1)).flatMap fun x =>
+            (List.range (pad b.z1 g.b2 / g.b2 - b.z0 / g.b2)).flatMap fun z =>
+              (List.range g.cpb).map fun c =>
+                Gen.crop_block_id (b.i0 / g.b0 + i) g.NB1 g.NB2 (b.x0 / g.b1 + x) (b.z0 / g.b2 + z) * g.cpb + c := by
+  unfold Crop.units Gen.crop_il_units Gen.crop_xl_units Gen.crop_z_units Gen.crop_block_id
+  simp only [pad_eq]
+
+theorem crop_block_offset (id : Nat) : Gen.crop_block_offset 4096 id = 4096 * id := rfl
+
+/-- bytes of one header array of the cropped file -/
+theorem crop_array_bytes (f : Header.Fields) (b : Crop.Box) (s : Bool) (p : Nat) :
+    (Derived.cropHeader f b s p).arrayBytes = Gen.crop_array_bytes (b.i1 - b.i0) (b.x1 - b.x0) := by
+  unfold Derived.cropHeader Gen.crop_array_bytes; rfl
+
+/-! ### conversion.py: re-blocker -/
+
+theorem reblock_count (n t : Nat) :
+    Reblock.count n t = if (t + 1) * 64 > n then Gen.reblock_i_count n 64 else 16 := by
+  unfold Reblock.count Gen.reblock_i_count; rfl
+
+theorem reblock_count_x (n t : Nat) :
+    Reblock.count n t = if (t + 1) * 64 > n then Gen.reblock_x_count n 64 else 16 := by
+  unfold Reblock.count Gen.reblock_x_count; rfl
+
+theorem reblock_last (n t : Nat) :
+    (Gen.reblock_last_il t n 64 ↔ (t + 1) * 64 > n) ∧ (Gen.reblock_last_xl n 64 t ↔ (t + 1) * 64 > n) := by
+  unfold Gen.reblock_last_il Gen.reblock_last_xl
+  constructor <;> constructor <;> intro h <;> omega
+
+/-! ### conversion_utils.py: producers -/
+
+/-- `planes_to_read` -/
+theorem producer_planes (n b s : Nat) :
+    Writer.toRead n b s = if (s + 1) * b > n then Gen.producer_planes b n else b := by
+  unfold Writer.toRead Gen.producer_planes; rfl
+
+theorem producer_last_set (n b s : Nat) : Gen.producer_last_set b n s ↔ (s + 1) * b > n := by
+  unfold Gen.producer_last_set
+  constructor <;> intro h
+  · exact_mod_cast h
+  · exact_mod_cast h
+
+/-- `start_trace` and the header slot `t_store` of `io_thread_func` -/
+theorem io_header_slots (N1 : Nat) (w : Window.Win) (b0 s i t : Nat) :
+    Gen.io_start_trace b0 w.a0 w.b0 i N1 s = Window.startTrace N1 w (s * b0 + i)
+    ∧ Gen.io_t_store w.a0 w.b0 (w.b1 - w.b0) (Gen.io_t_il N1 t) (Gen.io_t_xl N1 t) = Window.tStore N1 w t := by
+  unfold Gen.io_start_trace Window.startTrace Gen.io_t_store Gen.io_t_il Gen.io_t_xl Window.tStore
+  constructor
+  · simp only [Nat.add_assoc]
+  · rfl
 
 end Sgz.Tie
